@@ -12,8 +12,10 @@
 EXTENDS Fingerprint, FastForward, TraceUtil
 
 (* ------------------------------- part A ---------------------------------- *)
-MatchSb(e) == e.ok => /\ Len(e.obs) = Len(e.spends)
-                      /\ \A i \in DOMAIN e.spends : ObsSpendOk(e.spends[i].conds, e.obs[i])
+MatchSb(e) == /\ e.ok => /\ Len(e.obs) = Len(e.spends)
+                         /\ \A i \in DOMAIN e.spends : ObsSpendOk(e.spends[i].conds, e.obs[i])
+              \* the fingerprint function itself, on any list it can fingerprint (validated or not)
+              /\ \A i \in DOMAIN e.spends : (e.cpf[i].ok /\ Preimage(e.spends[i].conds).ok) => e.cpf[i].fp = FP(e.spends[i].conds)
 MatchPair(e) ==
   /\ Len(e.a.spends) = Len(e.b.spends)
   /\ \A i \in DOMAIN e.a.spends : ObsParsed(e.a.spends[i]) = ObsParsed(e.b.spends[i])
